@@ -139,7 +139,56 @@ func exercise(name string, t sched.Timer, seed uint64) (failures []string) {
 	if both+neither+twice > 0 {
 		failures = append(failures, fmt.Sprintf("%s: of %d one-shot timers %d delivered after a true Cancel, %d neither delivered nor cancelled, %d delivered twice", name, len(jobs), both, neither, twice))
 	}
+	// Shutdown while clients keep calling the API: no panic, no data race, every call returns
+	var late sync.WaitGroup
+	stopLate := make(chan struct{})
+	var latePanics int64
+	for g := 0; g < 3; g++ {
+		g := g
+		late.Add(1)
+		go func() {
+			defer late.Done()
+			for i := 0; ; i++ {
+				select {
+				case <-stopLate:
+					return
+				default:
+				}
+				func() {
+					defer func() {
+						if recover() != nil {
+							atomic.AddInt64(&latePanics, 1)
+						}
+					}()
+					switch g {
+					case 0:
+						id := t.RunAfter(1000+i%5, &job{})
+						t.IsScheduled(id)
+					case 1:
+						t.Cancel(i % 50)
+						t.Size()
+					default:
+						t.RunEvery(1000, &job{})
+					}
+				}()
+				time.Sleep(20 * time.Microsecond)
+			}
+		}()
+	}
+	time.Sleep(5 * time.Millisecond)
 	t.Shutdown()
+	time.Sleep(2 * time.Millisecond)
+	close(stopLate)
+	lateDone := make(chan struct{})
+	go func() { late.Wait(); close(lateDone) }()
+	select {
+	case <-lateDone:
+	case <-time.After(10 * time.Second):
+		failures = append(failures, name+": API calls made around Shutdown never returned")
+	}
+	if n := atomic.LoadInt64(&latePanics); n > 0 {
+		failures = append(failures, fmt.Sprintf("%s: %d API calls made around Shutdown panicked", name, n))
+	}
 	fmt.Printf("%s: %d one-shot timers, periodic fired %d times, failures %d\n", name, len(jobs), after, len(failures))
 	return
 }
